@@ -31,6 +31,10 @@ Fresh(x) == x[2] = 0 /\ x[3] = 0 /\ x[4] = 0 /\ x[5] = 0 /\ x[7] = PInf /\ x[8] 
 Init == /\ tid \in 1 .. Len(Traces) /\ l = 1 /\ ph = "new" /\ err = "ok" /\ done = FALSE
         /\ T = [n |-> 0] /\ F = <<>> /\ iter = 0 /\ ends = {} /\ npull = 0 /\ grown = <<>>
 
+\* a base learner driven by POO / GPO: a reward without a preceding pull (or two pulls in a row) is the wrapper
+\* crediting a learner for a point it did not propose -- a verdict about the wrapper, not a harness error
+ProtoErr == IF Has(PP, "under") THEN "credit.learner-off-protocol" ELSE "protocol"
+
 CallFail(e) == IF Has(e, "hang") THEN "call.hangs" ELSE IF Has(e, "exc") THEN "call.raises"
                ELSE IF e.k \in {"pull", "glp"} /\ e.ptok # 1 THEN "call.not-a-point"
                ELSE IF ~NoStructChange(e) \/ e.pd # T.pdepth THEN "call.struct-change" ELSE "ok"
@@ -126,7 +130,7 @@ Step ==
             /\ UNCHANGED <<iter, ph, ends, npull>>
        [] e.k = "pull" ->
             LET f == CallFail(e) IN
-            IF ph # "told" THEN err' = "protocol" /\ UNCHANGED <<T, F, iter, ph, ends, npull, grown>>
+            IF ph # "told" THEN err' = ProtoErr /\ UNCHANGED <<T, F, iter, ph, ends, npull, grown>>
             ELSE IF f # "ok" THEN err' = f /\ UNCHANGED <<T, F, iter, ph, ends, npull, grown>>
             ELSE LET r == PullStep(e) IN
                  /\ F' = r.F /\ ends' = r.ends /\ err' = r.err /\ ph' = "asked" /\ npull' = T.n /\ grown' = <<>>
@@ -140,7 +144,7 @@ Step ==
                  /\ UNCHANGED <<T, iter, ph, ends, npull, grown>>
        [] e.k = "recv" ->
             LET f == CallFail(e) IN
-            IF ph # "asked" THEN err' = "protocol" /\ UNCHANGED <<T, F, iter, ph, ends, npull, grown>>
+            IF ph # "asked" THEN err' = ProtoErr /\ UNCHANGED <<T, F, iter, ph, ends, npull, grown>>
             ELSE IF f # "ok" THEN err' = f /\ UNCHANGED <<T, F, iter, ph, ends, npull, grown>>
             ELSE LET r == RecvStep(e) IN
                  /\ F' = r.F /\ err' = r.err /\ ph' = "told" /\ iter' = iter + 1
